@@ -290,6 +290,25 @@ def run_case(case: dict) -> dict:
                 raise AssertionError("harness: holder did not start")
 
         data = BIG if case.get("big_body") or case.get("stall") == "write" else None
+        if case.get("file_body"):
+            # a file object as the body: read and closed through the executor, each a point where the caller can be cancelled
+            import tempfile
+
+            data = tempfile.TemporaryFile()
+            data.write(b"y" * 5000)
+            data.seek(0)
+
+            def run_in_executor(executor, func, *args):
+                # the result arrives an iteration later, as from a real executor: the caller is suspended meanwhile
+                fut = loop.create_future()
+                try:
+                    r, e = func(*args), None
+                except BaseException as exc:  # noqa: BLE001
+                    r, e = None, exc
+                loop.call_soon(lambda: fut.done() or (fut.set_exception(e) if e is not None else fut.set_result(r)))
+                return fut
+
+            loop.run_in_executor = run_in_executor  # type: ignore[method-assign]
         t_start = loop.time()
         bystander = None
         if case.get("bystander") and case.get("by_first"):
@@ -361,6 +380,11 @@ def run_case(case: dict) -> dict:
         out["main"] = res.get("main")
         out["main_transport_closed_at_fault"] = None
         if main.done():
+            mi0 = w.main_conn_idx()
+            if case.get("stall") == "response" and len(w.transports) > mi0 and res.get("main") is not None and res["main"][0] != "ok" and (mi0, "/main") in w.served:
+                # the peer is still withholding the rest of the response: that connection cannot be clean, and nothing
+                # that arrives later may be what closes it
+                out["main_transport_closed_at_fault"] = w.transports[mi0][0].closing or w.transports[mi0][0].closed
             # with the peer still stalled: nothing the request started may still be running
             # (the shared, shielded DNS lookup is the documented exception: other requests may be waiting for it)
             out["tasks_at_fault"] = sorted(
@@ -463,6 +487,9 @@ def check_case(rec: Rec, case: dict) -> None:
             raise Violation("cancel-ignored", f"the cancelled request task is still pending; {desc}")
         labels.append("cancel:" + (m[0] if m else "before-start"))
     # ---- residue
+    if out.get("main_transport_closed_at_fault") is False:
+        raise Violation(f"connection-open-at-fault/{mode}", f"the request failed / was cancelled while the peer withheld the rest of its response, "
+                        f"yet its connection is still open (and counted as in use) at that moment; {desc}")
     if out.get("stalled_transport_closed") is False:
         raise Violation(f"stalled-connection-not-closed/{mode}", f"the connection of the failed exchange is still open (it would be reused half-way through an exchange); {desc}")
     if out["acquired"]:
@@ -591,6 +618,11 @@ def cancel_shapes() -> list[dict]:
         {"mode": "cancel", "shape": "cl", "stall": "sock_connect", "bystander": True, "by_when": "after_fault", "by_lag": 0},
         {"mode": "cancel", "shape": "eof", "stall": "response", "cut": 70},
         {"mode": "cancel", "shape": "eof"},
+        {"mode": "cancel", "shape": "cl", "file_body": True},
+        {"mode": "cancel", "shape": "chunked", "stall": "response", "cut": 80, "file_body": True},
+        {"mode": "cancel", "shape": "chunked", "stall": "response", "cut": 80},
+        {"mode": "cancel", "shape": "big", "file_body": True},
+        {"mode": "cancel", "shape": "chunked", "file_body": True, "bystander": True, "by_when": "after_fault", "by_lag": 1},
     ]
 
 
